@@ -52,6 +52,15 @@ pub fn patterns_for(needle: &str) -> Vec<(&'static str, String)> {
         ("regex-prefix", format!("?^{}", regex_escape(needle))),
         ("regex-suffix", format!("?{}$", regex_escape(needle))),
         ("regex-wild", format!("?.*{}.*", regex_escape(needle))),
+        // quotes that are not a pair, and stars that belong to the text, are ordinary characters
+        ("odd-quotes-ds", format!("\"{}'", needle)),
+        ("odd-quotes-sd", format!("'{}\"", needle)),
+        ("open-quote", format!("\"{}", needle)),
+        ("close-quote", format!("{}'", needle)),
+        ("quoted-wildcards", format!("'*{}*'", needle)),
+        ("suffix-of-starred", format!("**{}", needle)),
+        ("prefix-of-starred", format!("{}**", needle)),
+        ("contains-starred", format!("**{}*", needle)),
     ];
     if needle.is_empty() {
         v.push(("any", "*".to_string()));
@@ -159,7 +168,13 @@ fn check_list(rep: &mut Report, s: &Singles, hays: &[String], members: &[usize],
 
 pub fn run(ctx: &Ctx) -> i32 {
     let needles = strings_over(&['a', 'b', 'A'], 3);
-    let hays = strings_over(&['a', 'b', 'A', 'B'], 4);
+    let mut hays = strings_over(&['a', 'b', 'A', 'B'], 4);
+    // values that contain the quote and star characters themselves
+    for n in strings_over(&['a', 'B'], 2) {
+        for (pre, post) in [("\"", "'"), ("'", "\""), ("\"", "\""), ("'", "'"), ("\"", ""), ("", "'"), ("*", ""), ("", "*"), ("*", "*"), ("b*", "a"), ("'*", "*'")] {
+            hays.push(format!("{}{}{}", pre, n, post));
+        }
+    }
     // ---- singles (exhaustive)
     let mut rep = Report::new();
     let mut pats: Vec<String> = vec![];
